@@ -355,3 +355,46 @@ def gen_module(rng, modname, upstream=(), errors=True, size=None):
   g = Gen(rng, modname, upstream, errors)
   src = g.module(size)
   return src, g.exports()
+
+
+# ---------------------------------------------------------------------------
+# a second, free source of realistic programs: some of pytype's own smaller
+# source files with their import lines blanked (the sandbox has no typeshed to
+# resolve them); they give 1-50 reported errors each and real-size stubs
+
+CORPUS = (
+    "pytype/utils.py", "pytype/datatypes.py", "pytype/pytd/booleq.py",
+    "pytype/pytd/mro.py", "pytype/rewrite/flow/conditions.py",
+    "pytype/rewrite/flow/variables.py", "pytype/rewrite/flow/state.py",
+    "pytype/module_utils.py", "pytype/pytd/slots.py", "pytype/metrics.py",
+    "pytype/pytd/abc_hierarchy.py", "pytype/imports_map.py",
+    "pytype/file_utils.py", "pytype/ast/visitor.py",
+    "pytype/pytd/pytd_utils.py", "pytype/compare.py",
+)
+
+
+def corpus_program(rng, repo):
+  """Returns (relative path, source with imports blanked) or None."""
+  import os
+  import re
+  rel = rng.choice(CORPUS)
+  try:
+    with open(os.path.join(repo, rel), encoding="utf8") as f:
+      src = f.read()
+  except OSError:
+    return None
+  out = []
+  for line in src.splitlines():
+    if re.match(r"\s*(import |from \S+ import )", line) and "typing" not in line:
+      if line.startswith((" ", "\t")):
+        out.append(re.sub(r"\S.*", "pass", line, count=1))
+      else:
+        out.append("")
+    else:
+      out.append(line)
+  text = "\n".join(out) + "\n"
+  try:
+    compile(text, rel, "exec")
+  except SyntaxError:
+    return None
+  return rel, text
